@@ -162,10 +162,24 @@ pub static PROGRESS: AtomicU64 = AtomicU64::new(0);
 /// variant): the stall monitor does not count that time as "no case finishes"
 pub static EXTERNAL: std::sync::atomic::AtomicUsize = std::sync::atomic::AtomicUsize::new(0);
 
+/// Make a child process die with the thread that spawned it (Linux PR_SET_PDEATHSIG), so
+/// that a worker which exits on a stall or is killed by the supervisor leaves no runaway
+/// valgrind / vdigest behind.
+pub fn die_with_parent(cmd: &mut std::process::Command) -> &mut std::process::Command {
+    use std::os::unix::process::CommandExt;
+    unsafe {
+        cmd.pre_exec(|| {
+            libc::prctl(libc::PR_SET_PDEATHSIG, libc::SIGKILL as libc::c_ulong);
+            Ok(())
+        });
+    }
+    cmd
+}
+
 /// `cmd.output()` with the stall monitor told that this thread waits for a child process
 pub fn run_external(cmd: &mut std::process::Command) -> std::io::Result<std::process::Output> {
     EXTERNAL.fetch_add(1, Ordering::SeqCst);
-    let out = cmd.output();
+    let out = die_with_parent(cmd).output();
     EXTERNAL.fetch_sub(1, Ordering::SeqCst);
     PROGRESS.fetch_add(1, Ordering::Relaxed);
     out
